@@ -180,11 +180,38 @@ def check(ctx):
     for c, r, m in c01.execute(gen_cases(ctx)):
         with ctx.guard(c):
             judge(ctx, c, r, m)
+    startmethod_cases(ctx)
     from harness.props import multistream
     multistream.run(ctx, ctx.scale(40, 400), {'draws', 'process'}, 'multi-C02')
 
 
+def startmethod_cases(ctx):
+    """laziness and the draw bound do not depend on how processes are started (fork, forkserver, spawn)"""
+    rng = ctx.rng
+    for method in ('forkserver', 'spawn'):
+        nw, ec, n = rng.choice([1, 2]), rng.choice([0, 1]), rng.choice([3, 5])
+        case = dict(start_method=method, nworkers=nw, extracache=ec, n=n)
+        ctx.case(('startmethod', method, nw, ec, n), True, sample=case)
+        ctx.count('start_method:' + method)
+        st, r = pipelib.isolated(pipelib.startmethod_probe, (method, nw, ec, {}, n), timeout=60)
+        if st == 'timeout':
+            st, r = pipelib.isolated(pipelib.startmethod_probe, (method, nw, ec, {}, n), timeout=60)
+        if st != 'ok':
+            ctx.fail('startmethod-stream-fails', 'a stream under start method %s: %s %s' % (method, st, str(r)[-300:]), case)
+            continue
+        if r['early_children'] or r['draws_before_first_next']:
+            ctx.fail('not-lazy-process-before-first-next', 'under start method %s, before the first next(): %d new child process(es), %d elements drawn' % (
+                method, r['early_children'], r['draws_before_first_next']), case)
+            continue
+        if r['draws_at_first_output'] > min(n, nw + ec + 1) or [o[1] for o in r['outputs']] != list(range(n)):
+            ctx.fail('window-bound-exceeded', 'under start method %s: %d draws at the first output (window %d), outputs %s' % (
+                method, r['draws_at_first_output'], nw + ec, r['outputs'][:6]), case)
+
+
 def replay(ctx, data):
+    if 'start_method' in data['case']:
+        startmethod_cases(ctx)
+        return
     case = data['case']
     if 'streams' in case:
         from harness.props import multistream
